@@ -151,6 +151,9 @@ type Frame struct {
 	SkipProb          int
 	MBs               []MB
 	Version           int
+	// ZeroSpelling: 0 = blocks end with EOB after their last non-zero level; 1 = every block
+	// spells its trailing zeros as DCT_0 tokens to position 15; 2 = every other block does
+	ZeroSpelling int
 }
 
 func (f *Frame) MBW() int { return (f.W + 15) / 16 }
@@ -165,7 +168,10 @@ var (
 )
 
 // writeBlock writes one 4x4 block's tokens; it returns 1 if any coefficient was coded.
-func writeBlock(e *boolEnc, prob *[8][3][11]uint8, ctx int, lv *[16]int, first int) int {
+// writeBlock writes one block of levels. With explicit set, the zeros after the
+// last non-zero level are spelled as DCT_0 tokens up to position 15 instead of
+// ending the block with EOB (both spellings are valid and decode to the same block).
+func writeBlock(e *boolEnc, prob *[8][3][11]uint8, ctx int, lv *[16]int, first int, explicit bool) int {
 	last := -1
 	for i := first; i < 16; i++ {
 		if lv[i] != 0 {
@@ -248,7 +254,7 @@ func writeBlock(e *boolEnc, prob *[8][3][11]uint8, ctx int, lv *[16]int, first i
 		if n == 16 {
 			return 1
 		}
-		more := n-1 < last
+		more := n-1 < last || explicit
 		e.put(p[0], more)
 		if !more {
 			return 1
@@ -263,6 +269,7 @@ func (f *Frame) Encode() []byte {
 	if len(f.MBs) != mbw*mbh {
 		panic("vp8gen: wrong number of macroblocks")
 	}
+	blockNo := 0
 	fp := newBoolEnc()
 	fp.lit(uint32(f.ColorSpace), 1)
 	fp.lit(uint32(f.Clamp), 1)
@@ -439,15 +446,19 @@ func (f *Frame) Encode() []byte {
 			}
 			plane := 3
 			first := 0
+			explicit := func() bool {
+				blockNo++
+				return f.ZeroSpelling == 1 || f.ZeroSpelling == 2 && blockNo%2 == 0
+			}
 			if !mb.IsI4 {
-				nz := writeBlock(tp, &prob[1], left.nzY16+up[mbx].nzY16, &mb.Lv[24], 0)
+				nz := writeBlock(tp, &prob[1], left.nzY16+up[mbx].nzY16, &mb.Lv[24], 0, explicit())
 				left.nzY16, up[mbx].nzY16 = nz, nz
 				plane, first = 0, 1
 			}
 			for y := 0; y < 4; y++ {
 				nz := left.nz[y]
 				for x := 0; x < 4; x++ {
-					nz = writeBlock(tp, &prob[plane], nz+up[mbx].nz[x], &mb.Lv[y*4+x], first)
+					nz = writeBlock(tp, &prob[plane], nz+up[mbx].nz[x], &mb.Lv[y*4+x], first, explicit())
 					up[mbx].nz[x] = nz
 				}
 				left.nz[y] = nz
@@ -456,7 +467,7 @@ func (f *Frame) Encode() []byte {
 				for y := 0; y < 2; y++ {
 					nz := left.nz[4+y+c]
 					for x := 0; x < 2; x++ {
-						nz = writeBlock(tp, &prob[2], nz+up[mbx].nz[4+x+c], &mb.Lv[16+c*2+y*2+x], 0)
+						nz = writeBlock(tp, &prob[2], nz+up[mbx].nz[4+x+c], &mb.Lv[16+c*2+y*2+x], 0, explicit())
 						up[mbx].nz[4+x+c] = nz
 					}
 					left.nz[4+y+c] = nz
@@ -643,6 +654,7 @@ func Generate(pk Picker, seed int64) (*Frame, string) {
 		}
 	}
 	// coefficients
+	f.ZeroSpelling = pk.Pick(3, "zero-spelling")
 	cp := pk.Pick(11, "coeffs")
 	mag := []int{1, 2, 3, 4, 5, 7, 11, 19, 35, 67, 2114}[pk.Pick(11, "magnitude")]
 	// keep |level * quantiser| inside 16 bits (coefficients are stored as int16)
